@@ -23,6 +23,7 @@ from sim.simfs import SimFS
 ENGINE = 'history'
 PROBE_WLS = [0.55, 0.4861327, 0.6562725]
 SKIP_GUARD = os.environ.get('VERIF_SKIP_GUARD') == '1'
+EPS_MACH = 2.220446049250313e-16
 EPS = 1e-9
 
 
@@ -500,7 +501,11 @@ class World:
         for a, b in zip(bounds[:-1], bounds[1:]):
             d0 = zs[a] - zm[a]
             for j in range(a, b):
-                if not feq(zs[j] - zm[j], d0, tol):
+                # positions are absolute: "rigidly" holds to the round-off
+                # of where the solve has put the group (a nearly collimated
+                # ray sends it 1e9 away)
+                if not feq(zs[j] - zm[j], d0,
+                           tol + 8 * EPS_MACH * (abs(d0) + abs(zs[j]))):
                     raise Violation('state-mismatch',
                                     f'{self.owner()}/{self.opname}/frame/z',
                                     f'surfaces {a}..{b - 1} did not move '
